@@ -125,13 +125,15 @@ func ApplyForURL(url string, timeout time.Duration, opts *Options) (*Result, err
 		return nil, fmt.Errorf("URL is not a HTML document")
 	}
 
-	// Apply distiller to response body
-	if opts == nil {
-		opts = &Options{}
+	// Apply distiller to response body. The fetched URL is used as page URL
+	// through a private copy, so the caller's Options is never modified.
+	localOpts := Options{}
+	if opts != nil {
+		localOpts = *opts
 	}
 
-	opts.OriginalURL = parsedURL
-	return ApplyForReader(resp.Body, opts)
+	localOpts.OriginalURL = parsedURL
+	return ApplyForReader(resp.Body, &localOpts)
 }
 
 // ApplyForFile runs distiller for the specified file.
